@@ -109,3 +109,20 @@ Proof.
         (conj proofs.LinkNoiseExample.rx_ok proofs.LinkNoiseExample.rx_restarts))).
 Qed.
 Print Assumptions C08_restart_invisible_at_any_boundary.
+
+(* ---- appended by worker link: a restart right after a seal (or right after genesis / Reset) ----
+   fresh_inst = the instance an epoch starts with (what a sealing block leaves behind: C09_epoch_matches_...).
+   Restarting it reports no error and no block, and the run over the following epochs still equals the
+   reference (multi-epoch L1, proofs/LinkEpochsCor.v). *)
+From LV Require proofs.LinkEpoch proofs.LinkSeal proofs.LinkEpochs proofs.LinkEpochsCor.
+Theorem C08_restart_after_seal_invisible :
+  forall cap lam pol seal polr K ep vals Ds conf c es, (K < 2 ^ 192)%N ->
+  proofs.LinkEpochs.epochs_ok seal polr vals ep Ds -> proofs.LinkEpochs.pol_ok pol seal polr vals ep (length Ds) ->
+  (forall D e, In D Ds -> In e D -> proofs.LinkDefs.id_fresh K (model.VecIndex.eid (spec.ElectionSpec.fe e))) ->
+  (N.of_nat (proofs.LinkEpochs.total_events Ds) <= K)%N ->
+  let i0 := proofs.LinkEpochs.fresh_inst ep (model.Abft.mk_vals vals) conf c es in
+  fst (fst (model.AbftRun.step cap pol model.Abft.sample i0 model.AbftRun.OpR)) = model.AbftRun.ObsR None [] 0 ep /\
+  proofs.LinkEpochs.model_epochs cap lam pol polr (snd (fst (model.AbftRun.step cap pol model.Abft.sample i0 model.AbftRun.OpR))) vals ep Ds
+    = spec.ElectionSpec.reference_epochs seal polr vals ep Ds.
+Proof. exact proofs.LinkEpochsCor.link_restart_after_seal. Qed.
+Print Assumptions C08_restart_after_seal_invisible.
